@@ -223,7 +223,7 @@ class Gen(object):
         if self.rng.random() < 0.2:
             # a RELATIVE file name travels as it is (client, server and the in-process call share the working directory)
             return self.rng.choice(['x.py', 'sub/m.py', './edit.py', '../up.py', 'moda.py'])
-        return os.path.join(self.rng.choice([self.dir_a, self.dir_b, self.root]), self.rng.choice(['x.py', 'edit.py', 'pkg_mod.py']))
+        return os.path.join(self.rng.choice([self.dir_a, self.dir_b, self.root]), self.rng.choice(['x.py', 'edit.py', 'pkg_mod.py', 'conftest.py', '__main__.py', 'setup.py', 'test_mod.py', '__init__.py']))
 
     def configure(self):
         r = self.rng
